@@ -327,6 +327,13 @@ int timerfd_settime(int fd, int flags, const struct itimerspec* nv, struct itime
         return fn(fd, flags, nv, ov);
     if (ov)
         memset(ov, 0, sizeof *ov);
+    {
+        // like the kernel, (re)setting a timer discards the expirations that have not been read yet
+        static auto rd = sim::real<ssize_t (*)(int, void*, size_t)>("read");
+        uint64_t junk;
+        while (rd(fd, &junk, sizeof junk) > 0)
+        { }
+    }
     int64_t v   = nv->it_value.tv_sec * 1000000000ll + nv->it_value.tv_nsec;
     int64_t itv = nv->it_interval.tv_sec * 1000000000ll + nv->it_interval.tv_nsec;
     if (v == 0)
